@@ -33,6 +33,25 @@ Theorem C06_redist_step_preserves :
 Proof. exact (@redist_step_preserves). Qed.
 Print Assumptions C06_redist_step_preserves.
 
+(* Completeness of one step: from a good world, with well-formed environment data ([precheck]:
+   the sharings are well formed, the driving quorum is a duplicate-free set of at least two current
+   holders, the anchor if any is one of them, the tapes belong to the quorum members, there are next
+   holders), a solver that answers with reconstructing coefficients for the quorum in the current
+   and in the zero sharing, and tapes long enough for the two dealings, NO honest step is refused:
+   every check of HJKY Round2 and of Round3 (pieces, consistency with the own / the anchor's data,
+   partial public keys, old pk = new pk, aggregated share) passes at every party. *)
+Theorem C06_redist_step_complete :
+  forall (F : Type) (K : fops F), flaws K ->
+  forall (solve : sharing -> list N -> option coefs) (w : world) (ns : sharing) (a : step_args) (s : F) (lam lamz : coefs),
+  good K w s -> precheck w ns a = true ->
+  coefs_checked K solve (w_sh w) (sa_Q a) = Some lam ->
+  coefs_checked K solve (sa_zs a) (sa_Q a) = Some lamz ->
+  (forall e : N * vec, In e (sa_rnd1 a) -> length (snd e) = sh_dim (sa_zs a)) ->
+  (forall e : N * vec, In e (sa_rnd2 a) -> length (snd e) = sh_dim ns) ->
+  exists w' : world, redist_run K solve w ns a = Some w'.
+Proof. exact (@redist_run_complete). Qed.
+Print Assumptions C06_redist_step_complete.
+
 (* After ANY finite history of {refresh, recover i, redistribute to any sharing/holders with or
    without anchor, sign} — performed or refused steps alike — starting from the trusted
    dealer's dealing of [secret]: the public key is the original one, the verification vector
